@@ -194,7 +194,6 @@ func c20Cases() []c20Case {
 			add(fmt.Sprintf("bind/%s/%s", a.name, b.name), c20Case{result: "I", build: "Q.Bind(" + a.expr + ", " + b.expr + "), NewImpl, NewPImpl"})
 		}
 	}
-	add("bind/one-arg", c20Case{result: "I", build: "Q.Bind(new(I)), NewImpl"})
 	// 5. wire.Value / wire.InterfaceValue
 	vals := []struct{ name, expr, typ string }{
 		{"int", "3", "int"}, {"neg", "-3", "int"}, {"string", "\"v\"", "string"}, {"composite", "S{A: 1}", "S"}, {"addr", "&S{A: 1}", "*S"},
@@ -212,10 +211,9 @@ func c20Cases() []c20Case {
 		}
 		add("value/"+v.name, c)
 	}
-	add("value/no-arg", c20Case{result: "int", build: "Q.Value()"})
 	ivals := []struct{ name, a, b string }{
 		{"ok", "new(I)", "Impl{}"}, {"ptr-impl", "new(I)", "&PImpl{}"}, {"not-impl", "new(I)", "S{}"}, {"nil", "new(I)", "nil"},
-		{"nilconv", "(*I)(nil)", "Impl{}"}, {"non-iface", "new(S)", "S{}"}, {"value-first", "IfaceVar", "Impl{}"}, {"one-arg", "new(I)", ""},
+		{"nilconv", "(*I)(nil)", "Impl{}"}, {"non-iface", "new(S)", "S{}"}, {"value-first", "IfaceVar", "Impl{}"},
 	}
 	for _, v := range ivals {
 		args := v.a
